@@ -66,6 +66,10 @@ let () =
     let md = rd_bool r in let w = rd_z r in let c0 = rd_z r in let c1 = rd_z r in
     let ws = rd_strs r in let ls = rd_list rd_strs r in
     wr_bool (wrap_ok escape_rx ws w c0 c1 md ls));
+  port "wrap_ok_strict" (fun r ->
+    let md = rd_bool r in let w = rd_z r in let c0 = rd_z r in let c1 = rd_z r in
+    let ws = rd_strs r in let ls = rd_list rd_strs r in
+    wr_bool (wrap_ok_strict escape_rx ws w c0 c1 md ls));
   port "rx_finditer" (fun r ->
     let i = nat_of_int (rd_int r) in let s = rd_str r in
     wr_opt (wr_list (fun ((a, e), gs) ->
@@ -89,7 +93,7 @@ let () =
   port "denormalize_adjacent_tags" (fun r -> wr_m wr_str (denormalize_adjacent_tags (rd_str r)));
   port "preprocess_tag_block_spacing" (fun r -> wr_str (preprocess_tag_block_spacing (rd_str r)));
   port "fix_closing_tag_spacing" (fun r -> wr_str (fix_closing_tag_spacing (rd_str r)));
-  port "fix_multiline_opening" (fun r -> wr_m wr_str (fix_multiline_opening_tag_with_closing (rd_str r)));
+  port "fix_multiline_opening" (fun r -> wr_str (fix_multiline_opening_tag_with_closing (rd_str r)));
   port "line_preds" (fun r -> let s = rd_str r in
     wr_bool (line_is_block_content s); wr_bool (line_is_list_item s); wr_bool (line_is_table_row s);
     wr_bool (is_tag_only_line s));
@@ -113,8 +117,8 @@ let () =
     wr_m wr_str (line_wrap_by_sentence w ml md t i1 i2));
   port "split_sentences" (fun r ->
     let ml = rd_z r in let t = rd_str r in
-    wr_m wr_strs (split_sentences_regex t ml));
-  port "split_hard_breaks" (fun r -> wr_m wr_strs (split_markdown_hard_breaks (rd_str r)));
+    wr_strs (split_sentences_regex t ml));
+  port "split_hard_breaks" (fun r -> wr_strs (split_markdown_hard_breaks (rd_str r)));
   port "fill_text" (fun r ->
     let mode = wrap_mode_of_int (rd_int r) in let w = rd_z r in let ic = rd_z r in
     let extra = rd_str r in let empty = rd_str r in let t = rd_str r in
